@@ -205,3 +205,68 @@ def check_scratch_reuse(ctx, rule="R-scratch-buffer-not-clobbered", files=("spec
                         ctx.holds(rule, f"{key}[{norm_stmt(s2)[:70]}]", f"buffer {r1} is refilled after the last use of '{v1}'", f"{rel}:{s2.lineno}")
     ctx.need("functions scanned for scratch-buffer reuse", nfun, 20)
     ctx.holds(rule, ",".join(files), f"{nfun} functions, {nfill} buffer fills through out= / writing callees: no buffer is refilled while an earlier result in it is still used", files[0])
+
+
+# ---------------------------------------------------------------------------- no module-level memo of argument-derived values
+_GLOBAL_MEMO_FIXTURE = '''
+_last = None
+def f(data, fs):
+    global _last
+    if _last is not None and _last[0] is data:
+        return _last[1]
+    r = expensive(data, fs)
+    _last = (data, r)
+    return r
+'''
+
+
+def _global_memo_sites(mod):
+    """[(function, name, assignment)] : a module-level name re-bound (via `global`) inside a function to a value computed from the function's arguments."""
+    out = []
+    for fn in [n for n in ast.walk(mod) if isinstance(n, ast.FunctionDef)]:
+        gl = {nm for n in ast.walk(fn) if isinstance(n, ast.Global) for nm in n.names}
+        if not gl: continue
+        params = {a.arg for a in fn.args.posonlyargs + fn.args.args + fn.args.kwonlyargs}
+        if fn.args.vararg: params.add(fn.args.vararg.arg)
+        if fn.args.kwarg: params.add(fn.args.kwarg.arg)
+        defs = {}
+        for n in ast.walk(fn):
+            if isinstance(n, ast.Assign):
+                for t in n.targets:
+                    for e in ([t] if isinstance(t, ast.Name) else list(ast.walk(t))):
+                        if isinstance(e, ast.Name) and isinstance(e.ctx, ast.Store): defs.setdefault(e.id, []).append(n.value)
+            elif isinstance(n, (ast.AnnAssign, ast.AugAssign)) and isinstance(n.target, ast.Name) and n.value is not None:
+                defs.setdefault(n.target.id, []).append(n.value)
+
+        def from_params(e, seen):
+            for x in ast.walk(e):
+                if isinstance(x, ast.Name) and isinstance(x.ctx, ast.Load):
+                    if x.id in params: return True
+                    if x.id in defs and x.id not in seen:
+                        seen.add(x.id)
+                        if any(from_params(v, seen) for v in defs[x.id]): return True
+            return False
+        for n in ast.walk(fn):
+            if isinstance(n, ast.Assign):
+                for t in n.targets:
+                    if isinstance(t, ast.Name) and t.id in gl and from_params(n.value, set()): out.append((fn, t.id, n))
+    return out
+
+
+def check_no_global_memo(ctx, rule="R-no-global-memo-of-arguments", files=("speckit/analysis.py", "speckit/core.py", "speckit/core_cuda.py", "speckit/schedulers.py",
+                                                                         "speckit/dsp.py", "speckit/noise.py", "speckit/systems.py", "speckit/utils.py")):
+    """a module-level slot re-bound inside a function to something computed from that call's arguments (the last analyzer, the last plan, the last
+    spectrum) makes later calls depend on earlier ones: an identity test on a mutable argument does not notice that its contents changed."""
+    assert len(_global_memo_sites(ast.parse(_GLOBAL_MEMO_FIXTURE))) == 1, "rule self-test failed"
+    nfun = 0; bad = 0
+    for rel in files:
+        if rel not in ctx.repo.mods: continue
+        mod = ctx.repo.module(rel)
+        nfun += sum(1 for n in ast.walk(mod) if isinstance(n, ast.FunctionDef))
+        for fn, name, node in _global_memo_sites(mod):
+            bad += 1
+            ctx.violated(rule, f"{rel}::{fn.name}[{norm_stmt(node)[:70]}]", f"the module-level name {name} is re-bound in {fn.name} to a value computed from this call's arguments and consulted by later "
+                         "calls: the result of a call depends on the calls made before it (an array refilled in place, or an equal-looking configuration, is served the stale object)", f"{rel}:{node.lineno}")
+    ctx.need("functions scanned for module-level memo slots", nfun, 100)
+    if not bad:
+        ctx.holds(rule, ",".join(files), f"{nfun} functions: no module-level name is re-bound to argument-derived values (positive control: the built-in fixture is reported)", files[0])
